@@ -26,15 +26,15 @@ TECHNIQUE = ("'opened without fallbacks' completeness oracle on the real stacked
 LEVEL_TEXT = ("every generated (history, split point, way of creating the stacked branch, sequence of pull/fetch/push/commit/merge steps) is executed on the "
               "real code; after every step the stacked repository is judged without and with its fallback")
 RULE = ("case = random history (<= 8 quick / <= 14 thorough revisions, <= 3 branches, merges, ghosts) x split point on the left-hand history x creation "
-        "(sprout-stacked|clone-stacked-on|cmd-branch|cmd-push|fresh+set_stacked_on_url) x 1-3 follow-up steps (pull|fetch|push|commit|merge-commit|push-bzr); "
+        "(sprout-stacked|clone-stacked-on|cmd-branch|cmd-push|fresh+set_stacked_on_url) x 1-5 follow-up steps (pull|fetch|push|commit|merge-commit|pack|commit-burst until autopack|push-bzr); "
         "one evaluation per judged step; non-trivial = the stacked repository holds at least one revision and the fallback holds one it does not; "
         "distinct = (format, creation, step kinds, local/fallback revision counts, graph shape)")
 CASES = {"quick": 48, "thorough": 640}
 BUDGET_S = {"quick": 45, "thorough": 780}
 MIN_EVALS = {"quick": 20, "thorough": 400}
-FLOORS = {"quick": {"local_parent_inventory": 20, "local_new_texts": 20, "local_delta": 20, "readable_with_fallbacks": 15, "check_clean": 15},
+FLOORS = {"quick": {"local_parent_inventory": 20, "local_new_texts": 20, "local_delta": 20, "readable_with_fallbacks": 15, "check_clean": 15, "pack_steps": 5},
           "thorough": {"local_parent_inventory": 800, "local_new_texts": 800, "local_delta": 800, "readable_with_fallbacks": 400, "check_clean": 400,
-                       "smart_steps": 20}}
+                       "smart_steps": 20, "pack_steps": 150, "autopack_steps": 15}}
 ASSUMPTIONS = [
     "ghost parents (never committed by the generator, absent from stacked repository and fallback) are exempt",
     "'texts that differ from the parents' = inventory entries whose (file_id, last-changed revision) no present parent tree carries",
@@ -163,8 +163,16 @@ def judge(ctx, stk_path, g, label, src_repo_path=None):
                     continue
                 ctx.count("trees_read")
                 if src is not None and src.has_revision(r):
-                    if snap != observe.snap_tree(src.revision_tree(r)):
-                        ctx.fail("fallbacks:tree-differs-from-source", "%s: %r" % (label, r), d)
+                    ssnap = observe.snap_tree(src.revision_tree(r))
+                    if snap != ssnap:
+                        diff = sorted(p for p in set(snap) | set(ssnap) if snap.get(p) != ssnap.get(p))
+                        bad = L.sha_mismatches(t, [p for p in diff if p in snap])
+                        if bad and len(bad) == len(diff):
+                            # not a stacking problem: the storage layer hands out bytes that do not match the sha1 the inventory records
+                            ctx.fail("stored-text:" + L.corruption_kind(snap[bad[0]][1], ssnap.get(bad[0], (None, None))[1]), "%s: %r: stored bytes of %r do not hash to the recorded text_sha1 "
+                                     "(got %r, source has %r)" % (label, r, bad[:3], snap[bad[0]][1][-40:], ssnap.get(bad[0], (None, b""))[1][-40:]), d)
+                        else:
+                            ctx.fail("fallbacks:tree-differs-from-source", "%s: %r differs at %r" % (label, r, diff[:4]), d)
         finally:
             if src is not None:
                 src.unlock()
@@ -262,12 +270,62 @@ def case(ctx):
     nsteps = rng.randint(1, 3)
     co_path = os.path.join(root, "co")
     n_commit = 0
-    for _i in range(nsteps):
-        kinds = ["pull", "fetch", "push"] + (["commit", "commit", "merge-commit", "merge-commit"] if can_commit else []) + ([] if quick else ["push-bzr", "pull-bzr"])
-        step = rng.choice(kinds)
+    kinds = ["pull", "fetch", "push", "pack"] + (["commit", "commit", "merge-commit", "merge-commit"] if can_commit else []) + ([] if quick else ["push-bzr", "pull-bzr"])
+    plan = [rng.choice(kinds) for _i in range(nsteps)]
+    # repacking must keep the parent inventories that were filled in from the fallback: an explicit pack() closes most cases,
+    # some 2a cases run separate commits until the autopack of the tenth pack fires
+    if can_commit and rng.random() < 0.2:
+        plan.append("commit-burst")
+    if plan[-1] != "pack" and rng.random() < 0.6:
+        plan.append("pack")
+    for step in plan:
         steps.append(step)
         stk = Branch.open(stk_path)
         cur = stk.last_revision()
+        if step == "pack":
+            ctx.count("pack_steps")
+            if rng.random() < 0.5:
+                repo = stk.repository                      # with fallbacks, as `brz pack <branch>` does
+            else:
+                repo = stk.controldir.open_repository()    # the stacked repository on its own
+            with repo.lock_write():
+                repo.pack()
+            judged(step)
+            continue
+        if step == "commit-burst":
+            if cur == L.NULL:
+                steps[-1] = step + ":skipped-empty"
+                continue
+            if not os.path.isdir(co_path):
+                stk.create_checkout(co_path, lightweight=True)
+            wt = WorkingTree.open(co_path)
+            if wt.last_revision() != cur:
+                wt.update()
+                gen.resolve_all(wt)
+                wt = WorkingTree.open(co_path)
+            packs_dir = os.path.join(stk_path, ".bzr", "repository", "packs")
+            prev = len(os.listdir(packs_dir))
+            autopacked = False
+            for j in range(14):
+                with open(os.path.join(co_path, "burst-file"), "ab") as f:
+                    f.write(b"burst %d\n" % j)
+                if not wt.is_versioned("burst-file"):
+                    wt.add(["burst-file"], ids=[b"burst-file-id"])
+                n_commit += 1
+                parents = wt.get_parent_ids()
+                rid = ("stk-%d-%d" % (ctx.index, n_commit)).encode()
+                wt.commit("burst %d" % j, rev_id=rid, timestamp=1600000000 + n_commit, timezone=0, committer="S <s@example.com>")
+                g.add(rid, parents)
+                now = len(os.listdir(packs_dir))
+                if now <= prev:
+                    autopacked = True
+                    break
+                prev = now
+            ctx.hist("commit-burst:autopacked=%s" % autopacked)
+            if autopacked:
+                ctx.count("autopack_steps")
+            judged(step)
+            continue
         if step in ("pull", "push", "fetch", "push-bzr", "pull-bzr"):
             sb_path = hist.trees[rng.choice(bnames)] if rng.random() < 0.35 else src_path
             sb = Branch.open(sb_path)
